@@ -21,6 +21,7 @@ import (
 	"sort"
 	"strings"
 	"sync"
+	"time"
 
 	"github.com/prometheus/client_golang/prometheus"
 )
@@ -34,6 +35,7 @@ const (
 	simCrashBefore         // process dies, no effect
 	simCrashAfter          // effect, then process dies
 	simHang                // the operation stalls until the caller's context expires, then fails without effect (virtual time only)
+	simSlow                // the operation takes Mask milliseconds (virtual time only) and then completes normally
 )
 
 // simVirtualTime is set while a case runs inside a testing/synctest bubble: context deadlines then expire on virtual
@@ -41,7 +43,7 @@ const (
 var simVirtualTime bool
 
 func (m simMode) String() string {
-	return [...]string{"ok", "err-not-applied", "err-applied", "crash-before", "crash-after", "stall-until-deadline"}[m]
+	return [...]string{"ok", "err-not-applied", "err-applied", "crash-before", "crash-after", "stall-until-deadline", "slow"}[m]
 }
 
 // simFault addresses one operation of the current phase of an incarnation.
@@ -94,6 +96,7 @@ type simCkptEvent struct {
 
 type simWorld struct {
 	stalls   int // operations that stalled until their deadline
+	slows    int // operations that were slow
 	mu       sync.Mutex
 	objs     map[string][]byte
 	hist     map[string][][]byte // every version each key ever had (uploads), for roll-back tampering
@@ -177,6 +180,7 @@ type simProc struct {
 	pool      *pool // pool being sequenced in this phase (set by the harness)
 	roundTime int64
 	onCrash   func()
+	slowMs    int64 // delay of the simSlow directive that just fired
 }
 
 func (w *simWorld) newProc() *simProc {
@@ -328,6 +332,9 @@ func (p *simProc) decide(op *simOp) simMode {
 		if f.Mode == simCrashBefore || f.Mode == simCrashAfter {
 			p.die()
 		}
+		if f.Mode == simSlow {
+			p.slowMs = int64(f.Mask)
+		}
 		return f.Mode
 	}
 	return simOK
@@ -336,6 +343,16 @@ func (p *simProc) decide(op *simOp) simMode {
 // stall implements simHang: called with w.mu held, it waits (lock released) for the caller's context to expire.
 // It returns the mode the operation then ends with.
 func (p *simProc) stall(ctx context.Context, mode simMode) simMode {
+	if mode == simSlow {
+		if simVirtualTime {
+			d := time.Duration(p.slowMs) * time.Millisecond
+			p.w.mu.Unlock()
+			time.Sleep(d)
+			p.w.mu.Lock()
+			p.w.slows++
+		}
+		return simOK
+	}
 	if mode != simHang {
 		return mode
 	}
